@@ -19,6 +19,12 @@ type (
 func (r RestrictionList) GetRestrictionMap() RestrictionList { return r }
 
 func (r RestrictionList) AddRestriction(category, item string) {
+	// an item named twice ("AAPL,AAPL/1Min/OHLCV") must not make its files qualify twice
+	for _, present := range r[category] {
+		if present == item {
+			return
+		}
+	}
 	r[category] = append(r[category], item)
 }
 
